@@ -39,24 +39,44 @@ pub struct DevStats {
     pub distinct_end_states: usize,
 }
 
-/// Run `f` on every deviation set; `f` returns (violations, end-state fingerprint).
-pub fn explore<V: Send>(
+/// Run `f` on every deviation set; `f` returns (violations, end-state fingerprint).  Violations are
+/// reduced to one per signature while the executions run (an execution that repeats a known
+/// finding returns a few kilobytes; millions of them must not be held at once).
+pub fn explore(
     points: usize,
     alts: &(dyn Fn(usize) -> usize + Sync),
     k: usize,
-    f: &(dyn Fn(&[(usize, usize)]) -> (Vec<V>, u64) + Sync),
-) -> (DevStats, Vec<V>) {
+    f: &(dyn Fn(&[(usize, usize)]) -> (Vec<crate::report::Violation>, u64) + Sync),
+) -> (DevStats, Vec<crate::report::Violation>) {
+    use std::collections::{BTreeMap, HashSet};
     let sets = deviation_sets(points, alts, k);
     let mut per_bound = vec![0u64; k + 1];
     for s in &sets {
         per_bound[s.len()] += 1;
     }
-    let res: Vec<(Vec<V>, u64)> = sets.par_iter().map(|s| f(s)).collect();
-    let mut ends = std::collections::HashSet::new();
-    let mut viols = vec![];
-    for (v, e) in res {
-        ends.insert(e);
-        viols.extend(v);
-    }
-    (DevStats { executions: sets.len() as u64, choice_points: points, bound: k, per_bound, distinct_end_states: ends.len() }, viols)
+    type Part = (BTreeMap<String, crate::report::Violation>, HashSet<u64>);
+    let (viols, ends): Part = sets
+        .par_iter()
+        .fold(
+            || (BTreeMap::new(), HashSet::new()),
+            |mut acc: Part, s| {
+                let (v, e) = f(s);
+                acc.1.insert(e);
+                for x in v {
+                    acc.0.entry(x.signature.clone()).or_insert(x);
+                }
+                acc
+            },
+        )
+        .reduce(
+            || (BTreeMap::new(), HashSet::new()),
+            |mut a: Part, b: Part| {
+                for (k, v) in b.0 {
+                    a.0.entry(k).or_insert(v);
+                }
+                a.1.extend(b.1);
+                a
+            },
+        );
+    (DevStats { executions: sets.len() as u64, choice_points: points, bound: k, per_bound, distinct_end_states: ends.len() }, viols.into_values().collect())
 }
